@@ -177,14 +177,14 @@ CLAIMED = {
         text="Memfs/Spec.v is a plain reference tree filesystem written from the trait documentation (one flat map from absolute paths to "
              "nodes, a working directory; no child lists, no separate data index). Coq theorems (Memfs/Refine.v, axiom-free): from every state "
              "reachable by ANY history of calls - reachable states are well formed (C03) and kind-sound (Memfs/Kinds.v), both proved for every "
-             "call including the move / copy / traversal loops - the mirror of Memfs refines the reference for mkfile, write_all, append_all, "
-             "reads, remove, set_cwd and the queries: the call returns exactly the reference call's value or error kind and leaves exactly "
+             "call including the move / copy / traversal loops - the mirror of Memfs refines the reference for mkfile, mkdir_p / mkdir_m, "
+             "write_all, append_all, reads, remove, symlink, set_cwd and the queries: the call returns exactly the reference call's value or error kind and leaves exactly "
              "the reference call's tree (so a failed call leaves it as it was). move_p is specified exactly and proved in Memfs/WfMove.v (C09). "
              "The mirror is tied to the real Memfs by a model-guided BFS of every reachable state of a bounded namespace x the full call "
              "alphabet and by random histories: every call's value / error kind and the complete resulting state; 'a failed single-target call "
-             "leaves the tree as it was' is also evaluated on the implementation's pre/post snapshots. Partial: mkdir_p / mkdir_m, symlink, "
-             "remove_all, copy, chmod and chown are compared state-for-state and judged on snapshots, and proved safe (no panic, well formed, "
-             "kind-sound), but their reference-level specification is not yet a theorem.",
+             "leaves the tree as it was' is also evaluated on the implementation's pre/post snapshots. Partial: remove_all, copy, chmod and "
+             "chown are compared state-for-state and judged on snapshots, and proved safe (no panic, well formed, kind-sound), but their "
+             "reference-level specification is not yet a theorem.",
         note="Trusted: Coq kernel; hook memfs_snapshot; extraction, driver, harness, differ.",
         technique="Executable Coq model + theorems over it + model-guided BFS correspondence on full state",
         ref="§7 C01"),
